@@ -234,6 +234,10 @@ class RealRun:
             # tracking its best checkpoint would) while training continues
             self.kept = self.pre.state_dict()
             ev['saved'] = snap_state(self.kept)
+        elif kind == 'rollback':
+            # load the kept state into the SAME (already used) object
+            self.pre.load_state_dict(self.kept, compute_inverses=True)
+            ev['loaded'] = snap_state(self.pre.state_dict())
         elif kind == 'loadkept':
             ev['kept_now'] = snap_state(self.kept)
             model = R.build_model(self.cfg['model'], self.dtype, self.seed)
@@ -563,11 +567,18 @@ class RefRun:
             self.it += 1
         elif op[0] == 'keep':
             self.kept = ref.state(include_factors=True)
-        elif op[0] == 'loadkept':
+            # the state also carries the constant hyper-parameters
+            self.kept['hp'] = {a: getattr(ref, a) for a in
+                               ('fus', 'ius', 'damping', 'decay', 'kl_clip',
+                                'lr') if not callable(getattr(ref, a))}
+        elif op[0] in ('loadkept', 'rollback'):
             ref2 = R.RefKFAC(names, method=method_of(cfg), **{
                 'fus': ref.fus, 'ius': ref.ius, 'damping': ref.damping,
                 'decay': ref.decay, 'kl_clip': ref.kl_clip, 'lr': ref.lr})
-            ref2.load(self.kept, compute_inverses=op[1])
+            for a, v in self.kept.get('hp', {}).items():
+                setattr(ref2, a, v)
+            ref2.load(self.kept, compute_inverses=op[1] if len(op) > 1
+                      else True)
             self.ref = ref = ref2
         elif op[0] == 'ckpt':
             st = ref.state(include_factors=op[1])
